@@ -155,6 +155,31 @@ SumSq(T, vs) == IF T = {} THEN 0
 BinIdx(d, Mn, Md, B) == ((d * B * Md) \div Mn) + 1
 OnBinEdge(d, Mn, Md, B) == d # 0 /\ (d * B * Md) % Mn = 0
 
+(* Default cut-off of the automatic bins: one third of the "box diameter" of the points, for lat-lon data
+   the great-circle length that belongs to the diagonal of the 3-D bounding box (a chord; chords longer
+   than the diameter of the sphere count as 180 degrees).  Exact in two cases:
+   - lattice points: the extent per axis is an integer, diagonal^2 in {0,1,2,3} is the chord of 0/60/90/120 degrees;
+   - an arc within one quadrant of the equator, or a meridian arc within one hemisphere half (one longitude,
+     latitudes of one sign): every coordinate is monotone along the arc, the box diagonal is the chord
+     between the end points, its great-circle length is the length of the arc in degrees. *)
+RECURSIVE MaxOf(_)
+MaxOf(S) == LET x == CHOOSE y \in S : TRUE IN IF S = {x} THEN x ELSE LET m == MaxOf(S \ {x}) IN IF x > m THEN x ELSE m
+MinOf(S) == -MaxOf({-x : x \in S})
+BoxGC(ps) ==
+  LET n == Len(ps)
+      I == 1..n
+  IN IF \A i \in I : IsLattice(ps[i])
+     THEN LET U == [i \in I |-> Unit(ps[i][1], ps[i][2])]
+              ext(a) == MaxOf({U[i][a] : i \in I}) - MinOf({U[i][a] : i \in I})
+              d2 == ext(1) * ext(1) + ext(2) * ext(2) + ext(3) * ext(3)
+          IN IF d2 >= 4 THEN 180 ELSE CASE d2 = 0 -> 0 [] d2 = 1 -> 60 [] d2 = 2 -> 90 [] d2 = 3 -> 120
+     ELSE IF (\A i \in I : ps[i][1] = 0) /\ (\E q \in 0..3 : \A i \in I : M360(ps[i][2]) \in (90 * q)..(90 * q + 90))
+     THEN MaxOf({M360(ps[i][2]) : i \in I}) - MinOf({M360(ps[i][2]) : i \in I})
+     ELSE IF (\A i \in I : M360(ps[i][2] - ps[1][2]) = 0)
+             /\ ((\A i \in I : ps[i][1] >= 0) \/ (\A i \in I : ps[i][1] <= 0))
+     THEN MaxOf({ps[i][1] : i \in I}) - MinOf({ps[i][1] : i \in I})
+     ELSE NA
+
 GCCompute(k) ==
   LET ps == PointSets[k]
       vs == Values[k]
@@ -174,10 +199,17 @@ GCCompute(k) ==
                          IN <<Cardinality(sel), SumSq(sel, vs)>>]],
        noedge |-> [a \in 1..Len(AutoBins) |-> \A pr \in pairs :
                      ~OnBinEdge(dm[pr[1]][pr[2]], AutoBins[a][1], AutoBins[a][2], AutoBins[a][3])],
+       \* great-circle length (degrees) of the bounding-box diagonal, NA where it is not exact; the default
+       \* last bin edge is boxgc / 3
+       boxgc |-> BoxGC(ps),
        chord2 |-> [i \in 1..n |-> [j \in 1..n |-> Chord2(dm[i][j])]],
        chk  |-> [ defined   |-> \A i, j \in 1..n : dm[i][j] # NA,
                   symmetric |-> \A i, j \in 1..n : dm[i][j] = dm[j][i] /\ dm[i][i] = 0,
                   range     |-> \A i, j \in 1..n : dm[i][j] \in 0..180,
+                  \* the box diagonal is at least as long as the largest distance, and equal to it on arcs
+                  box       |-> BoxGC(ps) # NA => /\ \A i, j \in 1..n : dm[i][j] <= BoxGC(ps)
+                                                   /\ (~(\A m \in 1..n : IsLattice(ps[m]))
+                                                          => \E a, b \in 1..n : dm[a][b] = BoxGC(ps)),
                   \* agrees with the exact 3-D geometry where both points are lattice points
                   lattice   |-> \A i, j \in 1..n :
                                   (IsLattice(ps[i]) /\ IsLattice(ps[j])) =>
